@@ -16,6 +16,7 @@ On break: operator / operand-sign grid against finite-difference first-order pro
 import contextlib
 import io
 import math
+import os
 import random
 
 import numpy as np
@@ -40,6 +41,9 @@ TAC = "c09"
 
 
 def close(model, y, rtol=1e-12, atol=1e-300):
+    if not math.isfinite(float(y)):
+        # the implementation returned nan/inf where the model is a real number: an unprovable goal, reported as a mismatch
+        return "(Rabs (%s) < 0)%%R" % model
     return "(Rabs (%s - %s) <= %s)%%R" % (model, Rq(y), Rq(_tol(y, rtol, atol)))
 
 
@@ -559,6 +563,7 @@ def run(ctx):
                 "non-trivial = both operands/matrices non-degenerate (no zero error, no identity transform only)")
     common.theorem_stage(ctx)
     quick = ctx.tier == "quick"
+    os.chdir(ctx.dir)   # cal_hesse_error writes error_matrix.npy into the working directory
     cases = op_cases(ctx, rnd, 4 if quick else 40)
     ctx.log("operator cases", len(cases))
     cases += calerr_cases(ctx, rnd, 6 if quick else 60)
